@@ -85,22 +85,29 @@ def gov_call(frm, contract, method, args, tag, ok=True, accts=()):
                 body=("bvm", ("done",) if ok else ("fail", False)), invalid=False, tag=tag, opaque=True, accts=list(accts))
 
 
-def audit_admin_history(r, decision_bind="approve", gas=0, extra_transfers=False):
+def audit_admin_history(r, decision_bind="approve", gas=0, extra_transfers=False, poor_decider=False):
     """GOVERNED history through the real NodeManager / RoleManager / Governance contracts (4 admins, 3 approvals or
     2 rejections conclude a proposal): two audit nodes registered, an audit admin registered and approved (the ONE
     legitimate grant), its node logged out (admin paused), the admin bound to the other node (approved or rejected).
-    Grants are counted for approved REGISTRATIONS only."""
+    Grants are counted for approved REGISTRATIONS only - and only when the transaction whose vote concluded the
+    registration SUCCEEDED.  poor_decider (gas price > 0): the admin casting the third approval has given its money
+    away and cannot pay the fee of that vote: the body runs (proposal approved, grant paid to the pre-funded, already
+    existing candidate account), the executor undoes it and marks the receipt FAILED; the fourth admin then really
+    approves.  Exactly one grant may remain."""
     admin, n1, n2 = "u:22", "u:20", "u:21"
     pre = list(X.SEED2) + [{"op": "fund", "acct": a, "amt": "7"} for a in (admin, n1, n2, "u:1", "u:2")]
     blocks = []
     pid = [0]
+    cfg_bal = "1000000000"
 
-    def proposal(op, concl_tag="vote", grant=None, decision="approve"):
+    def proposal(op, concl_tag="vote", grant=None, decision="approve", poor=None):
         blocks.append([op])
         voters = ["a:0", "a:1", "a:2"] if decision == "approve" else ["a:1", "a:3"]
+        if poor_decider and decision == "approve":
+            voters = ["a:0", "a:1", "a:2", "a:3"] if poor else ["a:0", "a:1", "a:3"]
         for i, v in enumerate(voters):
             tx = {"t": "bvm", "from": v, "to": "c:governance", "m": "Vote", "args": [["pid", "a:0", pid[0]], ["s", decision], ["s", "r"]]}
-            last = i == len(voters) - 1
+            last = i == len(voters) - 1 or (poor and i == len(voters) - 2)       # the poor admin's vote WOULD conclude, too
             if last and grant is not None and decision == "approve":
                 o = dict(tx=tx, frm=v, body=("grant", X.acct_id(grant), True), invalid=False, tag="grant_audit_admin", opaque=True, accts=[grant])
             else:
@@ -113,7 +120,14 @@ def audit_admin_history(r, decision_bind="approve", gas=0, extra_transfers=False
     node = lambda n, name: gov_call("a:0", "node", "RegisterNode", [["sa", n], ["s", "nvpNode"], ["s", ""], ["u64", "0"], ["s", name], ["s", "chainA"], ["s", "r"]], "register_node")
     proposal(node(n1, "nvp1"))
     proposal(node(n2, "nvp2"))
-    proposal(gov_call("a:0", "role", "RegisterRole", [["sa", admin], ["s", "auditAdmin"], ["sa", n1], ["s", "r"]], "register_audit_admin"), grant=admin)
+    if poor_decider:
+        # a:2 did not vote so far and received a quarter of eight fees; it keeps nothing but its share of this
+        # transfer's fee, and three more fee shares do not add up to the fee of one vote
+        o = X.op_transfer("a:2", "u:1", str(int(cfg_bal) + 8 * 52500 * gas - 21000 * gas))
+        o["tag"] = "admin_gives_all_away"
+        blocks.append([o])
+    proposal(gov_call("a:0", "role", "RegisterRole", [["sa", admin], ["s", "auditAdmin"], ["sa", n1], ["s", "r"]], "register_audit_admin"), grant=admin,
+             poor=poor_decider)
     proposal(gov_call("a:0", "node", "LogoutNode", [["sa", n1], ["s", "r"]], "logout_node"), concl_tag="node_logged_out")
     proposal(gov_call("a:0", "role", "BindRole", [["sa", admin], ["sa", n2], ["s", "r"]], "bind_role"), concl_tag="bind_concluded", decision=decision_bind)
     return dict(cfg=dict(admins=4, gas=gas, audit=False, bal="1000000000"), pre=pre, blocks=blocks)
@@ -239,9 +253,13 @@ def run(ctx):
     ids = X.Ids()
     if ctx.model_ok:
         items = corpus_histories(ids) + [audit_admin_history(ctx.rng, "approve"), audit_admin_history(ctx.rng, "reject"),
-                                         audit_admin_history(ctx.rng, "approve", gas=1, extra_transfers=True)]
+                                         audit_admin_history(ctx.rng, "approve", gas=1, extra_transfers=True),
+                                         audit_admin_history(ctx.rng, "approve", gas=1, poor_decider=True),
+                                         audit_admin_history(ctx.rng, "reject", gas=7, poor_decider=True)]
         if not ctx.quick:
             items += [audit_admin_history(ctx.rng, ctx.rng.choice(["approve", "reject"]), gas=ctx.rng.choice([0, 1, 7]), extra_transfers=True) for _ in range(12)]
+            items += [audit_admin_history(ctx.rng, ctx.rng.choice(["approve", "reject"]), gas=ctx.rng.choice([1, 3, 7]), extra_transfers=ctx.rng.random() < 0.5,
+                                          poor_decider=True) for _ in range(8)]
         n = 150 if ctx.quick else 2000
         items += [gen_history(ctx.rng, ctx.quick, ids) for _ in range(n)]
         outs, e = X.run_histories(exe, [to_history(g) for g in items])
